@@ -148,6 +148,12 @@ class Signal(Command):
         if 'childpid' in props and 'pid' not in props:
             raise ArgumentError('cannot specify childpid without pid')
 
+        if 'pid' in props:
+            try:
+                props['pid'] = int(props['pid'])
+            except (TypeError, ValueError):
+                raise MessageError('pid invalid')
+
         try:
             props['signum'] = to_signum(props['signum'])
         except ValueError:
